@@ -12,7 +12,7 @@ import (
 func init() {
 	register("C13", &ruleSet{
 		run:    runC13,
-		floors: map[string]int{"O1": 4, "O2": 2, "O3": 1},
+		floors: map[string]int{"O1": 4, "O2": 2, "O3": 1, "O4": 1},
 		explain: "Decides the existence and ordering of the give-up mechanisms (instants are not applicable to a static argument): (O1) every blocking select in " +
 			"the limiter package has a wake-up/hand-off case, a ctx.Done() case (unconditional in the cond-var wait, conditional only on the configured eviction flag " +
 			"in the queue limiter) and a timer case armed from the configured bound whenever that bound is positive (a select without a timer is reachable only when " +
@@ -87,7 +87,9 @@ func runC13(p *Prog, l *Ledger) {
 	l.Rule("O1", "every blocking select has a wake-up case, a ctx.Done case and a timer case armed from the configured bound when it is positive; only the wake-up case yields success")
 	l.Rule("O2", "pre-checks (ctx.Err, deadline) dominate every delegate.Acquire; their failing edges refuse without touching the delegate; an Acquire after a wait requires the 'signalled' result")
 	l.Rule("O3", "a computed wait bound (remaining time to a deadline) is proved > 0 where it is handed to a wait primitive that treats <= 0 as 'no timer'")
+	l.Rule("O4", "no wait outside the give-up mechanisms: the wait primitive hands the condition's lock it is entered with to a waiter on every way out (the C10/O1 lock-handed-over rule on the same tree); a lock left held parks every later Acquire in Lock(), where neither timeout nor cancellation applies")
 	l.NotCovered = []string{"that the return happens at the bound and not before (exact instants / virtual clock)", "the blocking limiter's timeout is a poll interval, not a give-up bound (by design)"}
+	importObligations(p, l, "C10", "O4", func(o *Obligation) bool { return o.Rule == "O1" && strings.HasSuffix(o.Key, "/lock-handed-over") })
 
 	// ---------------- O1: selects
 	var sels []*c13Select
